@@ -1,11 +1,13 @@
 #!/bin/bash
 # re-verify every kept seeded change against the current /repo HEAD: patch applies, demo passes clean / fails patched,
 # and the property's quick check reports a violation with the patch applied.  usage: recheck_seeds.sh [ids...]
-cd /verif
+REPO=${BYCYCLE_REPO:-/repo}
+VERIF=$(cd $(dirname $0)/..; pwd)
+cd $VERIF
 ids="$@"; [ -z "$ids" ] && ids=$(ls seeded)
 for id in $ids; do
-  d=/verif/seeded/$id; p=${id%_*}
-  if ! git -C /repo apply --check $d/patch.diff 2>/dev/null; then echo "$id: PATCH DOES NOT APPLY"; continue; fi
+  d=$VERIF/seeded/$id; p=${id%_*}
+  if ! git -C $REPO apply --check $d/patch.diff 2>/dev/null; then echo "$id: PATCH DOES NOT APPLY"; continue; fi
   out=$(./tools/verify_seed.sh $d $p 2>&1)
   demo=$(echo "$out" | grep "^demo"); chk=$(echo "$out" | grep "^check" | sed 's/;.*theorems/ theorems/' | cut -c1-150)
   echo "$id: $demo | $chk"
